@@ -94,7 +94,7 @@ class World:
         os.makedirs(os.path.join(root, "app.application", "d"))
         with open(os.path.join(root, "app.application", "a"), "w") as f:
             f.write("3")
-        with open(os.path.join(root, "a"), "w") as f:
+        with open(os.path.join(root, "user_input.txt"), "w") as f:
             f.write("1")
         comps = [realenv.simple_component("q", 0), realenv.simple_component("s", 1)]
         if self.mig:
@@ -107,7 +107,7 @@ class World:
                       realenv.simple_component("c", 1, references=[refstr(r) for r in self.refs], **extra)]
             self.cname = "c"
         flowir = {"application-dependencies": {"default": ["app.application"]}, "components": comps}
-        exp = realenv.experiment_from_flowir(flowir, root, extra_files={"data/a": "2"}, inputs=[os.path.join(root, "a")], validate=False)
+        exp = realenv.experiment_from_flowir(flowir, root, extra_files={"data/a": "2"}, inputs=[os.path.join(root, "user_input.txt") + ":a"], validate=False)      # the rename form  <path>:<name in input/>
         self.inst = exp.instanceDirectory.location
         self.wdpath = os.path.join(self.inst, "stages", "stage1", self.cname)
         self.cid = "stage1.%s" % self.cname
@@ -116,6 +116,9 @@ class World:
         self.refindex = {}
         for i, r in enumerate(self.refs):
             self.refindex["%s:%s" % (REFPATH[r["l"]], r["m"])] = i + 1
+        # what the instance was created with: the renamed input file, the data file of the package, the application dependency (a link)
+        self.created = {l: (_content(self.path[l]) if os.path.isfile(self.path[l]) else None) for l in ("in", "da", "ap")}
+        self.created["app-is-link"] = os.path.islink(os.path.join(self.inst, "app"))
         self.exp = self.job = self.cs = None
         self.tick = TICK0
         self.res, self.launch = "none", "none"
@@ -162,7 +165,15 @@ class World:
                 self.set_loc(l, src[l])
         self.tick = TICK0
         self.res, self.launch = "none", "none"
-        self.new_objects()
+        if self.exp is None:
+            self.new_objects()
+        else:
+            # a fresh Job + JobWorkingDirectory for the consumer as Stage._initialise_components makes them when an Experiment
+            # is built (Experiment.experimentFromInstance costs 40 ms; it is used for every Restart event)
+            stage = self.exp._stages[1]
+            self.job = stage._create_job(self.cname, self.exp.experimentGraph)
+            stage._jobs[self.cname] = self.job
+            self.cs = WF.ComponentState(self.job, self.exp.experimentGraph, create_engine=False)
 
     # ---- the abstraction function ----------------------------------------------------------------------------------------
     def _target(self, raw, holder):
@@ -298,7 +309,7 @@ class World:
                 self.res, self.launch = ("other" if res.startswith("other") else res), launch
                 steps.append((("step", "mig", "", 1), dict(fs, res=self.res, launch=self.launch)))
                 return steps, box
-            steps.append((("step", "mig", "", 1), dict(fs, st=False, res=self.res, launch=self.launch)))
+            steps.append((("step", "mig", "", 1), dict(fs, st=steps[0][1]["st"], res=self.res, launch=self.launch)))
             self.res, self.launch = res, launch
             steps.append((("end", "", "", 0), self.project()))
             return steps, box
